@@ -11,7 +11,8 @@ LOOP_LABELS = ["unreg_due_victim_in_callback", "unreg_self_in_callback", "handle
                "equal_expiry", "unreg_pending_timer_in_callback", "level_triggered_repeat", "method_epoll_timerfd", "method_epoll", "method_ppoll",
                "method_poll", "free_in_oneshot_handler", "event_register_failure", "raw_post_inside_own_handler", "far_timer_clamp",
                "timerfd_enosys_fallback", "ppoll_enosys_fallback", "raw_burst_gt_1000", "raw_post_from_signal_handler", "raw_post_from_forked_child",
-               "raw_pipe_transport", "raw_old_eventfd_transport", "raw_burst_multiple_of_1024"]
+               "raw_pipe_transport", "raw_old_eventfd_transport", "raw_burst_multiple_of_1024",
+               "fault_injection_reached", "method_switched", "same_struct_reregistered_without_init", "iv_main_rerun_after_quit_from_handler"]
 
 _COMMON_NOTE = ("trusted: the harness' shadow model and oracles (harness/t_loop.c), the link-time interposition layer (harness/vk.c), the running "
                 "kernel's poll/epoll semantics, clang ASan/UBSan. Generated-input search never establishes absence: the claim is 'no violation in "
@@ -39,8 +40,9 @@ PROPS = {
     ),
     "C03": dict(
         level="exploration", labels=LOOP_LABELS,
-        campaigns=[("loop", ["profile=fd"], 100000, 2000000), ("loop", ["profile=fd", "big=1"], 30000, 600000), ("loop", ["profile=all"], 20000, 400000)],
-        rule="cases = fd-centred loop programs with handler-variant and cookie changes and struct reuse; every fd callback is checked against the shadow (registered, installed variant, current cookie), the ground-truth snapshot of the preceding poll, and a once-per-iteration rule; non-trivial = a descriptor was ready at one poll and not ready at the next while still registered, or a struct was reused while its descriptor was ready; distinct = executed action sequence hash",
+        campaigns=[("loop", ["profile=fd"], 100000, 2000000), ("loop", ["profile=fd", "big=1"], 30000, 600000), ("loop", ["profile=all"], 20000, 400000),
+                   ("mt", ["profile=event"], 10000, 200000)],
+        rule="cases = fd-centred loop programs with handler-variant and cookie changes and struct reuse (plus multi-threaded programs in which a cross-thread event's handler moves a struct iv_fd to another descriptor while entries of the same poll batch are outstanding: a handler run for a descriptor that was never readable is a violation); every fd callback is checked against the shadow (registered, installed variant, current cookie), the ground-truth snapshot of the preceding poll, and a once-per-iteration rule; non-trivial = a descriptor was ready at one poll and not ready at the next while still registered, or a struct was reused while its descriptor was ready; distinct = executed action sequence hash",
         assumptions=["same ground truth as C02"],
     ),
     "C04": dict(
@@ -66,7 +68,7 @@ PROPS = {
 }
 
 AVL_LABELS = ["rotate_left", "rotate_right", "rotate_left_right", "rotate_right_left", "delete_leaf", "delete_one_child", "delete_two_children_left_victim",
-              "delete_two_children_right_victim", "duplicate_insert", "multi_level_rebalance", "tree_emptied", "next_prev_probe", "delete_root", "height_ge_5"]
+              "delete_two_children_right_victim", "duplicate_insert", "multi_level_rebalance", "tree_emptied", "next_prev_probe", "delete_root", "height_ge_5", "difference_comparator", "for_each_safe_with_deleting_body"]
 
 
 def _avl_parts(height, parts, sample=0):
@@ -78,9 +80,9 @@ PROPS["C16"] = dict(
     campaigns=[dict(target="avl", quick=_avl_parts(4, 4) + _avl_parts(5, 12, sample=6000), thorough=_avl_parts(5, 16),
                     exhaustive_quick="every AVL shape of height <= 4 (1+1+3+15+315 shapes) x every insert gap, every duplicate insert and every node deletion; height 5 sampled",
                     exhaustive_thorough="every AVL shape of height <= 5 (108675 shapes of height 5) x every insert gap, every duplicate insert and every node deletion"),
-               ("avl", [], 6000, 100000), ("avl", ["big=1"], 600, 10000)],
-    rule="(a) enumeration: every AVL shape up to the stated height, built through the public node fields with keys 2,4,6..; per shape one case per insert position (odd keys), per duplicate insert (even keys) and per deletable node; every (shape, operation) pair is distinct by construction and counted once; (b) random mixed insert/delete/next/prev histories over small key ranges (8..511, so duplicates are frequent), nodes individually malloc'ed and freed at delete; non-trivial history = contains all 4 rotation kinds, two-children deletions with the victim taken from either side, and a duplicate insert; distinct = hash of the operation sequence. After EVERY operation: full walk (BST order, parent links, exact recorded heights, |balance|<=1, node set = model), forward and backward traversal = model order, failed duplicate insert leaves the tree bit-identical",
-    assumptions=["comparator is a total order on integer keys", "exhaustive only up to the stated height; beyond it random histories (heights up to ~10)"],
+               ("avl", [], 6000, 100000), ("avl", ["big=1"], 600, 10000), ("avl", ["mode=big", "cpu_limit=60"], 48, 960)],
+    rule="(a) enumeration: every AVL shape up to the stated height, built through the public node fields with keys 2,4,6..; per shape one case per insert position (odd keys), per duplicate insert (even keys) and per deletable node; every (shape, operation) pair is distinct by construction and counted once; (c) large trees (20000-65000 nodes; ascending, descending, pseudo-random, delete-half-and-refill) with a full structural check every 4096 operations; (b) random mixed insert/delete/next/prev histories over small key ranges (8..511, so duplicates are frequent), nodes individually malloc'ed and freed at delete; non-trivial history = contains all 4 rotation kinds, two-children deletions with the victim taken from either side, and a duplicate insert; distinct = hash of the operation sequence. After EVERY operation: full walk (BST order, parent links, exact recorded heights, |balance|<=1, node set = model), forward and backward traversal = model order, failed duplicate insert leaves the tree bit-identical",
+    assumptions=["comparator is a total order on integer keys", "exhaustive only up to the stated height; beyond it random histories (heights up to ~10) and large trees of 20000-65000 nodes (heights 15-20) checked every 4096 operations"],
     level_text="bounded-exhaustive enumeration of all AVL shapes up to height 4 (quick) / 5 (thorough) crossed with every insert position, duplicate and deletion, plus random long histories, each operation followed by a complete structural comparison with a reference ordered set",
     level_note="trusted: the reference model (sorted presence array) and the structural walk in harness/t_avl.c; ASan for freed nodes. Exhaustive only within the stated height; exploration beyond.",
     technique="property-based testing: bounded-exhaustive shape enumeration + seeded random operation histories against a reference ordered-set model, full invariant walk after every step; choice-sequence shrinking",
@@ -101,7 +103,8 @@ PROPS["C05"] = dict(
 )
 PUMP_LABELS = ["buffer_full_pollin_dropped", "eof_read_with_data_buffered", "hard_error_with_data_buffered", "splice_mode", "read_write_mode", "relay_eof_flag",
                "short_transfer_injected", "eagain_injected", "eintr_injected", "destroy_midstream_with_data", "second_pump_same_thread", "completed",
-               "free_mode", "socket_input", "socket_output", "output_peer_gone", "stream_gt_250k", "backpressure", "eof_relayed_by_shutdown", "empty_stream"]
+               "free_mode", "socket_input", "socket_output", "output_peer_gone", "stream_gt_250k", "backpressure", "eof_relayed_by_shutdown", "empty_stream",
+               "crowd_of_pumps_in_one_thread", "crowd_larger_than_buffer_cache"]
 PROPS["C17"] = dict(
     level="exploration", labels=PUMP_LABELS, engine="pump",
     campaigns=[("pump", [], 60000, 1200000)],
@@ -119,7 +122,7 @@ MT_LABELS = ["context_switch_inside_iv_event_post", "context_switch_at_owner_loc
              "worker_died_of_idle_timeout", "iv_thread_child", "iv_thread_exit_without_deinit", "iv_thread_pthread_exit", "method_epoll_timerfd",
              "method_epoll", "method_ppoll", "method_poll", "raw_event_kick_transport", "eventfd_fallback_transport", "fd_unregistered_in_event_handler",
              "pool_struct_reuse", "submit_from_completion", "virtual_time_passed_10s", "post_burst", "raw_cross_thread_post", "raw_big_burst",
-             "null_pool_work", "put_from_completion", "iv_thread_create_fails"]
+             "null_pool_work", "put_from_completion", "iv_thread_create_fails", "pool_worker_create_fails", "first_event_register_emfile"]
 _MT_NOTE = ("trusted: the baton scheduler (harness/vsched.c: preemption only at interposed lock / kick / descriptor-I/O / wait / thread create-join points), "
             "the virtual kernel, the harness' history bookkeeping in harness/t_mt.c, ASan/UBSan. Races between two plain memory accesses are out of reach "
             "here (C14's TSan runs look for those). Exploration of generated schedules, not an exhaustive interleaving search.")
@@ -155,7 +158,8 @@ PROPS["C09"] = dict(
 SIG_LABELS = ["mixed_flags_on_one_signal", "delivery_inside_handler", "exclusive_unregistered_with_delivery_open", "this_thread_candidates", "two_owner_threads",
               "raise_inside_register_or_unregister", "fork_child_raises", "receiver_without_loop_state", "handoff_to_non_exclusive", "coalesced_delivery",
               "last_unregister_restores_default", "method_epoll_timerfd", "method_epoll", "method_ppoll", "method_poll", "exclusive_candidates",
-              "this_thread_shadows_process_wide", "other_threads_this_thread_interest_not_woken", "pipe_transport"]
+              "this_thread_shadows_process_wide", "other_threads_this_thread_interest_not_woken", "pipe_transport",
+              "out_of_range_signum_refused", "forked_child_registers_first_interest"]
 PROPS["C10"] = dict(
     level="exploration", labels=SIG_LABELS, engine="sig",
     campaigns=[("sig", [], 60000, 1200000)],
@@ -166,7 +170,7 @@ PROPS["C10"] = dict(
     level_note=_MT_NOTE, technique=_MT_TECH, design_ref="DESIGN.md section 3 (C10)")
 WAIT_LABELS = ["stranger_terminates", "two_changes_queued_for_one_child", "pid_reuse", "spawned_child_exits_at_once", "unregister_from_handler", "kill_helper",
                "kill_helper_after_death", "stop_continue", "two_owner_threads", "register_for_existing_child", "cross_thread_delivery", "method_epoll_timerfd",
-               "method_epoll", "method_ppoll", "method_poll", "unregister_with_status_pending", "three_or_more_changes_in_one_reap", "stranger_before_any_interest"]
+               "method_epoll", "method_ppoll", "method_poll", "unregister_with_status_pending", "three_or_more_changes_in_one_reap", "stranger_before_any_interest", "kill_helper_races_reaping_thread"]
 PROPS["C11"] = dict(
     level="exploration", labels=WAIT_LABELS, engine="wait",
     campaigns=[("wait", [], 60000, 1200000)],
@@ -181,9 +185,9 @@ INO_LABELS = ["read_with_3_or_more_records", "unregister_with_records_still_unpa
               "unknown_wd_record", "fs_ops_inside_handler"]
 PROPS["C20"] = dict(
     level="exploration", labels=INO_LABELS, engine="ino",
-    campaigns=[("ino", [], 16000, 320000)],
+    campaigns=[("ino", [], 16000, 320000), ("race", ["ino=1"], 300, 6000)],
     min_conclusive=150,
-    rule="cases = 1-2 iv_inotify instances (heap allocated, non-zeroed) with up to 5 watches each on a per-case scratch directory, its files and a sub-directory, masks incl. IN_ONESHOT; generated bursts of 1-12 file-system operations (create, append, truncate, rename, unlink, mkdir, rmdir, open/read, chmod) from a timer chain and from inside handlers; handler scripts unregister their own watch, another watch, the whole instance, or re-register a dropped watch struct from its own handler; reference = the byte stream returned by the library's own read() of the inotify descriptor (captured at the libc boundary): each record must be delivered, in order, to exactly the watch whose descriptor it carries, with identical wd/mask/cookie/name, unless that watch or the instance has been unregistered by then (then it must NOT be delivered); one-shot and IN_IGNORED watches are already dropped when their handler runs (the struct is reused/freed there); the loop may not block while the kernel still has events queued; everything freed at unregister (ASan); non-trivial = one read carried >=3 records AND a handler unregistered something while records for it were still unparsed; distinct = hash(executed actions)",
+    rule="cases = (a) 1-2 iv_inotify instances (heap allocated, non-zeroed) with up to 5 watches each on a per-case scratch directory, its files and a sub-directory, masks incl. IN_ONESHOT; generated bursts of 1-12 file-system operations (create, append, truncate, rename, unlink, mkdir, rmdir, open/read, chmod) from a timer chain and from inside handlers; handler scripts unregister their own watch, another watch, the whole instance, or re-register a dropped watch struct from its own handler; reference = the byte stream returned by the library's own read() of the inotify descriptor (captured at the libc boundary): each record must be delivered, in order, to exactly the watch whose descriptor it carries, with identical wd/mask/cookie/name, unless that watch or the instance has been unregistered by then (then it must NOT be delivered); one-shot and IN_IGNORED watches are already dropped when their handler runs (the struct is reused/freed there); the loop may not block while the kernel still has events queued; everything freed at unregister (ASan); (b) free-running multi-threaded scenarios (race target, ThreadSanitizer build) in which 2+ loop threads each own an inotify instance watching their own directory and create/unlink 24 files named after the thread: an event named after another thread, or a conflicting unsynchronised access inside the event parser, is a violation; non-trivial = (a) one read carried >=3 records AND a handler unregistered something while records for it were still unparsed, (b) two or more loop threads; distinct = hash(executed actions)",
     assumptions=["the running kernel's inotify semantics (coalescing, IN_IGNORED generation) are taken as they come: the reference is what the kernel handed to the library", "one watch per inode and instance (the API cannot represent two)"],
     level_text="exploration of generated watch sets, file-system bursts and handler scripts on real inotify instances; record-by-record comparison with the kernel's own stream",
     level_note="trusted: the record bookkeeping in harness/t_ino.c, interposition of read() at the libc boundary, the running kernel's inotify; ASan/UBSan.",
@@ -191,7 +195,7 @@ PROPS["C20"] = dict(
     design_ref="DESIGN.md section 3 (C20)")
 POPEN_LABELS = ["child_died_between_two_signals", "child_ignored_term_until_kill", "child_exited_before_close", "close_while_child_alive", "child_dies_on_first_term",
                 "child_stops_and_continues", "several_requests", "real_exec_child", "type_r", "type_w", "method_epoll_timerfd", "method_epoll", "method_ppoll",
-                "method_poll", "child_exit_at_signal_timer_instant", "request_never_closed", "signal_to_zombie", "child_dies_on_nth_term"]
+                "method_poll", "child_exit_at_signal_timer_instant", "request_never_closed", "signal_to_zombie", "child_dies_on_nth_term", "fork_fails_then_resubmit", "unrelated_child_ends_at_the_same_moment"]
 PROPS["C19"] = dict(
     level="exploration", labels=POPEN_LABELS, engine="popen",
     campaigns=[("popen", [], 40000, 800000), ("popen", ["real=1"], 400, 4000)],
@@ -224,7 +228,7 @@ PROPS["C15"] = dict(
     design_ref="DESIGN.md section 3 (C15)")
 RACE_LABELS = ["cross_thread_iv_event_post", "cross_thread_raw_post", "work_pool", "continuation_from_worker", "signal_delivered", "child_reaped", "loop_init_deinit_churn",
                "two_independent_loops", "method_epoll_timerfd", "method_epoll", "method_ppoll", "method_poll", "pipe_transport", "iv_thread", "two_posters_same_events",
-               "loops_start_before_first_event_registered"]
+               "loops_start_before_first_event_registered", "inotify_instance_per_loop_thread"]
 PROPS["C14"] = dict(
     level="exploration", labels=RACE_LABELS, engine="race",
     campaigns=[("race", [], 2400, 60000)],
@@ -322,6 +326,10 @@ def replay(prop, spec, path):
     return rc
 
 
+TARGET_LABELS = {"loop": LOOP_LABELS, "avl": AVL_LABELS, "timers": TIMERS_LABELS, "pump": PUMP_LABELS, "mt": MT_LABELS, "sig": SIG_LABELS,
+                 "wait": WAIT_LABELS, "ino": INO_LABELS, "popen": POPEN_LABELS, "hyg": HYG_LABELS, "race": RACE_LABELS}
+
+
 def run_check(prop, spec, tier, seed, scale, write_evidence=True):
     if spec.get("custom") == "c15":
         import c15
@@ -332,7 +340,7 @@ def run_check(prop, spec, tier, seed, scale, write_evidence=True):
     rdir = os.path.join(VERIF, "replays", prop); os.makedirs(rdir, exist_ok=True)
     lines = []; nviol = 0; nknown = 0
     tot = dict(evals=0, ok=0, viol=0, crash=0, inc=0)
-    labels = [0] * 64; hashes = set(); samples = []; counters = [0] * 16
+    labels = {}; hashes = set(); samples = []; counters = [0] * 16   # labels: (target, bit) -> number of cases
     seen_tags = set()
     exes = {}
     enum_nontrivial = [0]; enum_samples = []
@@ -417,7 +425,7 @@ def run_check(prop, spec, tier, seed, scale, write_evidence=True):
                     enum_nontrivial[0] += r["c"][0]
                     for i in range(64):
                         if r["labels"] >> i & 1:
-                            labels[i] += 1
+                            labels[(camp["target"], i)] = labels.get((camp["target"], i), 0) + 1
                     if r.get("log"):
                         enum_samples.append(dict(params=ps, trace=r["log"].splitlines()[:10]))
                 elif r["v"] == "inc":
@@ -443,7 +451,8 @@ def run_check(prop, spec, tier, seed, scale, write_evidence=True):
         for k in tot:
             tot[k] += summ[k]
         for i in range(64):
-            labels[i] += summ["labels"][i]
+            if summ["labels"][i]:
+                labels[(target, i)] = labels.get((target, i), 0) + summ["labels"][i]
         for i in range(16):
             counters[i] += summ["c"][i]
         hashes |= summ["hashes"]
@@ -458,8 +467,10 @@ def run_check(prop, spec, tier, seed, scale, write_evidence=True):
         r = vlib.run_case(exe, s, ["prop=" + prop], verbose=True)
         params, data = vlib.read_case(s)
         sample_out.append(dict(case_bytes=data.hex()[:400], params=params, trace=r.get("log", "").splitlines()[:60]))
-    names = spec.get("labels", [])
-    labcounts = {names[i] if i < len(names) else "label%d" % i: labels[i] for i in range(64) if labels[i]}
+    labcounts = {}
+    for (tg, i), cnt in sorted(labels.items()):
+        names = TARGET_LABELS.get(tg, [])
+        labcounts["%s.%s" % (tg, names[i] if i < len(names) else "label%d" % i)] = cnt
     ev = dict(property_id=prop, tier=tier, seed=seed, level=spec["level"],
               coverage=dict(evaluations=tot["evals"], distinct_nontrivial=len(hashes) + enum_nontrivial[0], rule=spec["rule"], samples=sample_out + enum_samples[:3],
                             exhaustive=bool(exhaustive_note), exhaustive_scope="; ".join(exhaustive_note),
